@@ -282,8 +282,9 @@ theorem stampText_length (s0 s1 s2 s3 s4 s5 s6 : List Char) (y mo d h mi s : Nat
     pad_length_of_lt 1 s hs]
   omega
 
-/-- the year-first formats (every format but the day-first fmt 3) are instances of the skeleton -/
-theorem renderStamp_eq (fmt : Nat) (hf : fmt ≠ 3) :
+/-- the year-first formats with all six fields (every format but the day-first fmt 3 and the
+    date-only fmt 4) are instances of the skeleton -/
+theorem renderStamp_eq (fmt : Nat) (hf : fmt ≠ 3 ∧ fmt ≠ 4) :
     ∃ s0 s1 s2 s3 s4 s5 s6, ∀ k, renderStamp fmt k =
       stampText s0 s1 s2 s3 s4 s5 s6 (k / 10000000000) (k / 100000000 % 100) (k / 1000000 % 100)
         (k / 10000 % 100) (k / 100 % 100) (k % 100) := by
@@ -299,7 +300,8 @@ theorem renderStamp_eq (fmt : Nat) (hf : fmt ≠ 3) :
     split
     · exact absurd rfl h1
     · exact absurd rfl h2
-    · exact absurd rfl hf
+    · exact absurd rfl hf.1
+    · exact absurd rfl hf.2
     · simp [stampText]
 
 theorem stamp_decomp (k : Nat) :
@@ -327,7 +329,7 @@ theorem mod100_lt (x : Nat) : x % 100 < 10 ^ 2 := Nat.mod_lt _ (by decide)
 /-- C16.4 timestamps, infix level (every year-first format; 4-digit years): the packed stamp
     order is the text order. The field ranges need no hypothesis (`% 100`), and `10^13 ≤ k` is
     not needed. -/
-theorem stamps_order (fmt k k' : Nat) (hf : fmt ≠ 3) (h : k < k') (hk' : k' < 10 ^ 14) :
+theorem stamps_order (fmt k k' : Nat) (hf : fmt ≠ 3 ∧ fmt ≠ 4) (h : k < k') (hk' : k' < 10 ^ 14) :
     ltText (renderStamp fmt k) (renderStamp fmt k') = true := by
   obtain ⟨s0, s1, s2, s3, s4, s5, s6, he⟩ := renderStamp_eq fmt hf
   rw [he k, he k']
@@ -340,7 +342,7 @@ theorem stamps_order (fmt k k' : Nat) (hf : fmt ≠ 3) (h : k < k') (hk' : k' < 
   rw [← stamp_decomp k, ← stamp_decomp k']
   exact h
 
-theorem renderStamp_length_eq (fmt k k' : Nat) (hf : fmt ≠ 3) (hk : k < 10 ^ 14) (hk' : k' < 10 ^ 14) :
+theorem renderStamp_length_eq (fmt k k' : Nat) (hf : fmt ≠ 3 ∧ fmt ≠ 4) (hk : k < 10 ^ 14) (hk' : k' < 10 ^ 14) :
     (renderStamp fmt k).length = (renderStamp fmt k').length := by
   obtain ⟨s0, s1, s2, s3, s4, s5, s6, he⟩ := renderStamp_eq fmt hf
   rw [he k, he k',
@@ -352,7 +354,8 @@ theorem renderStamp_length_eq (fmt k k' : Nat) (hf : fmt ≠ 3) (hk : k < 10 ^ 1
 example : renderStamp 0 20240131100000 = "r2024-01-31_10-00-00".toList ∧
     renderStamp 1 20240131100000 = "r20240131-100000".toList ∧
     renderStamp 2 20240131100000 = "r2024-01-31_10-00-00_x".toList ∧
-    renderStamp 3 20240131100000 = "r31-01-2024_10-00-00".toList := by decide
+    renderStamp 3 20240131100000 = "r31-01-2024_10-00-00".toList ∧
+    renderStamp 4 20240131000000 = "r2024-01-31".toList := by decide
 
 /-- full statement of the order lemma for EVERY format -/
 def stamps_order_full_statement : Prop :=
@@ -380,7 +383,7 @@ theorem renderInfix_ts_ne_nil (sp : Spec) (k : Nat) (r : Option Nat) :
 
 /-- full names: different stamps (any restart numbers, any compression flags) -/
 theorem stamps_order_names (sp : Spec) (k k' : Nat) (r r' : Option Nat) (g g' : Bool)
-    (hf : sp.fmt ≠ 3) (h : k < k') (hk' : k' < 10 ^ 14) :
+    (hf : sp.fmt ≠ 3 ∧ sp.fmt ≠ 4) (h : k < k') (hk' : k' < 10 ^ 14) :
     ltText (render sp ⟨some (.ts k r), g⟩) (render sp ⟨some (.ts k' r'), g'⟩) = true := by
   rw [render_some sp _ g (by simp) (renderInfix_ts_ne_nil sp k r),
     render_some sp _ g' (by simp) (renderInfix_ts_ne_nil sp k' r')]
@@ -476,7 +479,7 @@ theorem keyLt_iff (a b c d : Nat) : keyLt (a, b) (c, d) = true ↔ a < c ∨ (a 
   simp only [keyLt, Bool.or_eq_true, Bool.and_eq_true, decide_eq_true_eq]
 
 theorem ts_order_key (sp : Spec) (k k' : Nat) (r r' : Option Nat) (g g' : Bool)
-    (hf : sp.fmt ≠ 3) (hk' : k' < 10 ^ 14) (hr' : ∀ x, r' = some x → x < 10000)
+    (hf : sp.fmt ≠ 3 ∧ sp.fmt ≠ 4) (hk' : k' < 10 ^ 14) (hr' : ∀ x, r' = some x → x < 10000)
     (hs : RestartSafe sp)
     (h : keyLt (Infix.ts k r).key (Infix.ts k' r').key = true) :
     ltText (render sp ⟨some (.ts k r), g⟩) (render sp ⟨some (.ts k' r'), g'⟩) = true := by
@@ -501,7 +504,7 @@ theorem ts_order_key (sp : Spec) (k k' : Nat) (r r' : Option Nat) (g g' : Bool)
 /-- … and as an equation (same compression flag, both sides bounded): the structural order of
     the timestamp infixes IS the order of the rendered names -/
 theorem ts_order_key_eq (sp : Spec) (k k' : Nat) (r r' : Option Nat) (g : Bool)
-    (hf : sp.fmt ≠ 3) (hk : k < 10 ^ 14) (hk' : k' < 10 ^ 14) (hr : ∀ x, r = some x → x < 10000)
+    (hf : sp.fmt ≠ 3 ∧ sp.fmt ≠ 4) (hk : k < 10 ^ 14) (hk' : k' < 10 ^ 14) (hr : ∀ x, r = some x → x < 10000)
     (hr' : ∀ x, r' = some x → x < 10000) (hs : RestartSafe sp) :
     ltText (render sp ⟨some (.ts k r), g⟩) (render sp ⟨some (.ts k' r'), g⟩) =
       keyLt (Infix.ts k r).key (Infix.ts k' r').key := by
